@@ -2,3 +2,162 @@
 // SPDX-License-Identifier: Apache-2.0
 
 //! verification hook drivers: streams
+//!
+//! Drives the real `DefaultStreamManager` (stream id allocation in `manager.rs`, the stream
+//! `Controller` with its `LocalInitiated` limits): opening local streams, MAX_STREAMS from the
+//! peer, and closing a local unidirectional stream by resetting it and acknowledging the
+//! RESET_STREAM.
+#![allow(dead_code, unused_imports, clippy::all)]
+
+use crate::{
+    connection::{self, InternalConnectionId, InternalConnectionIdGenerator},
+    contexts::ConnectionApiCallContext,
+    stream::{DefaultStreamManager, Manager as _},
+    transmission,
+    verif_hooks::data_sender::{Recorded, Recorder},
+    wakeup_queue::{WakeupHandle, WakeupQueue},
+};
+use core::task::{Context, Poll, Waker};
+use s2n_quic_core::{
+    endpoint,
+    frame::MaxStreams,
+    packet::number::{PacketNumberRange, PacketNumberSpace},
+    stream::{ops, StreamId, StreamType},
+    transport::parameters::{InitialFlowControlLimits, InitialStreamLimits},
+    varint::VarInt,
+};
+use std::sync::Arc;
+
+struct Noop;
+impl std::task::Wake for Noop {
+    fn wake(self: Arc<Self>) {}
+}
+
+pub fn stream_type_of(t: u64) -> StreamType {
+    if t % 2 == 0 {
+        StreamType::Bidirectional
+    } else {
+        StreamType::Unidirectional
+    }
+}
+
+pub struct Streams {
+    pub manager: DefaultStreamManager,
+    queue: WakeupQueue<InternalConnectionId>,
+    handle: WakeupHandle<InternalConnectionId>,
+    token: connection::OpenToken,
+    waker: Waker,
+    pub next_packet_number: u64,
+}
+
+impl Streams {
+    /// `server`: local endpoint type; peer limits = initial MAX_STREAMS of the peer's transport
+    /// parameters; local limits = the application's own concurrency limits
+    pub fn new(server: bool, peer_bidi: u64, peer_uni: u64, local_bidi: u64, local_uni: u64) -> Self {
+        let stream_limits = InitialStreamLimits {
+            max_data_bidi_local: VarInt::from_u32(4096),
+            max_data_bidi_remote: VarInt::from_u32(4096),
+            max_data_uni: VarInt::from_u32(4096),
+        };
+        let local = InitialFlowControlLimits {
+            stream_limits,
+            max_data: VarInt::from_u32(65536),
+            max_open_remote_bidirectional_streams: VarInt::from_u32(100),
+            max_open_remote_unidirectional_streams: VarInt::from_u32(100),
+        };
+        let peer = InitialFlowControlLimits {
+            stream_limits,
+            max_data: VarInt::from_u32(65536),
+            max_open_remote_bidirectional_streams: VarInt::new(peer_bidi).unwrap(),
+            max_open_remote_unidirectional_streams: VarInt::new(peer_uni).unwrap(),
+        };
+        let limits = connection::Limits::default()
+            .with_max_open_local_bidirectional_streams(local_bidi)
+            .unwrap()
+            .with_max_open_local_unidirectional_streams(local_uni)
+            .unwrap();
+        let ty = if server {
+            endpoint::Type::Server
+        } else {
+            endpoint::Type::Client
+        };
+        let manager = DefaultStreamManager::new(
+            &limits,
+            ty,
+            local,
+            peer,
+            core::time::Duration::from_millis(333),
+        );
+        let queue = WakeupQueue::new();
+        let handle = queue.create_wakeup_handle(InternalConnectionIdGenerator::new().generate_id());
+        Self {
+            manager,
+            queue,
+            handle,
+            token: connection::OpenToken::new(),
+            waker: Waker::from(Arc::new(Noop)),
+            next_packet_number: 0,
+        }
+    }
+
+    /// Some(id) when the stream was opened, None when pending, Err(()) on a connection error
+    pub fn open(&mut self, t: u64) -> Result<Option<u64>, ()> {
+        let cx = Context::from_waker(&self.waker);
+        let mut api = ConnectionApiCallContext::from_wakeup_handle(&self.handle);
+        match self
+            .manager
+            .poll_open_local_stream(stream_type_of(t), &mut self.token, &mut api, &cx)
+        {
+            Poll::Ready(Ok(id)) => Ok(Some(id.as_varint().as_u64())),
+            Poll::Ready(Err(_)) => Err(()),
+            Poll::Pending => Ok(None),
+        }
+    }
+
+    pub fn max_streams(&mut self, t: u64, v: u64) {
+        let _ = self.manager.on_max_streams(&MaxStreams {
+            stream_type: stream_type_of(t),
+            maximum_streams: VarInt::new(v).unwrap(),
+        });
+    }
+
+    /// application reset of a (unidirectional, locally opened) stream
+    pub fn reset(&mut self, id: u64, code: u64) -> bool {
+        let mut api = ConnectionApiCallContext::from_wakeup_handle(&self.handle);
+        let mut req = ops::Request::default();
+        req.reset(VarInt::new(code).unwrap().into());
+        self.manager
+            .poll_request(
+                StreamId::from_varint(VarInt::new(id).unwrap()),
+                &mut api,
+                &mut req,
+                None,
+            )
+            .is_ok()
+    }
+
+    /// one packet of the given capacity
+    pub fn transmit(&mut self, capacity: usize) -> Vec<Recorded> {
+        let mut ctx = Recorder::new(
+            capacity,
+            transmission::Constraint::None,
+            transmission::Mode::Normal,
+            self.next_packet_number,
+            endpoint::Type::Client,
+        );
+        let _ = self.manager.on_transmit(&mut ctx);
+        if !ctx.frames.is_empty() {
+            self.next_packet_number += 1;
+        }
+        ctx.frames
+    }
+
+    pub fn ack(&mut self, lo: u64, hi: u64) {
+        let space = PacketNumberSpace::ApplicationData;
+        let range = PacketNumberRange::new(
+            space.new_packet_number(VarInt::new(lo).unwrap()),
+            space.new_packet_number(VarInt::new(hi).unwrap()),
+        );
+        self.manager.on_packet_ack(&range);
+    }
+}
